@@ -56,6 +56,8 @@ type SessSpec struct {
 	QERs []QERSpec `json:"qers"`
 	FARs []FARSpec `json:"fars"`
 	PDRs []PDRSpec `json:"pdrs"`
+	// URRs: every PDR measures into a URR of its own (id 100 + PDR id), so that removing a PDR also tears a URR reference down
+	URRs bool `json:"urrs,omitempty"`
 }
 type Ev struct {
 	Kind    string    `json:"kind"` // burst updfar rmpdr del est
@@ -68,10 +70,11 @@ type Ev struct {
 	Action  uint16    `json:"action,omitempty"`
 	NewGNB  int       `json:"new_gnb,omitempty"` // 0: unchanged, else gnb index+1
 	NewTEID uint32    `json:"new_teid,omitempty"`
-	IDLast  bool      `json:"id_last,omitempty"` // updfar: FAR ID IE after the Apply Action IE
-	QERs    []uint32  `json:"qers,omitempty"`    // mkpdr
-	Late    bool      `json:"late,omitempty"`    // burst: notifications that were on their way when the PDR was removed (the kernel had handed the packets up before): they belong to no PDR the session has
-	Whole   bool      `json:"whole,omitempty"`   // burst: written in one go (the listener runs ahead of the idle loop and the report queue fills) instead of chunks of 100
+	IDLast  bool      `json:"id_last,omitempty"`  // updfar: FAR ID IE after the Apply Action IE
+	QERs    []uint32  `json:"qers,omitempty"`     // mkpdr
+	WithURR bool      `json:"with_urr,omitempty"` // rmpdr: the same message removes the PDR's URR
+	Late    bool      `json:"late,omitempty"`     // burst: notifications that were on their way when the PDR was removed (the kernel had handed the packets up before): they belong to no PDR the session has
+	Whole   bool      `json:"whole,omitempty"`    // burst: written in one go (the listener runs ahead of the idle loop and the report queue fills) instead of chunks of 100
 	Spec    *SessSpec `json:"spec,omitempty"`
 }
 type Case struct {
@@ -97,6 +100,7 @@ type mpdr struct {
 	far     uint32
 	qers    []uint32
 	removed bool
+	urrGone bool // the URR the PDR measured into has been removed
 }
 type msess struct {
 	spec   SessSpec
@@ -114,6 +118,7 @@ type stats struct {
 	overflowThenRelease, releaseAfterReuse, twoForw bool
 	recreated                                       bool
 	late                                            bool // notifications delivered after the removal of their PDR
+	rmWithURR                                       bool // a PDR and its URR removed by one message
 	lateSeid0                                       bool // a notification answered with SEID 0 after its session had ended
 	released, notified                              int
 }
@@ -189,7 +194,16 @@ func run(c Case) (v *vcore.Violation, stt stats) {
 		// QER and FAR children in another order; the Create PDRs keep theirs (the order of their QER IDs carries meaning)
 		rules = stack.Permute(rules, c.Perm)
 		for _, p := range sp.PDRs {
-			rules = append(rules, stack.RuleOp{Verb: "create", Kind: "PDR", ID: uint32(p.ID), Prec: 1, SrcIf: 1, UEIP: "10.60.0.1", FAR: p.FAR, QERs: p.QERs})
+			if sp.URRs {
+				rules = append(rules, stack.RuleOp{Verb: "create", Kind: "URR", ID: 100 + uint32(p.ID), Method: 2, Trig: 2})
+			}
+		}
+		for _, p := range sp.PDRs {
+			var urrs []uint32
+			if sp.URRs {
+				urrs = []uint32{100 + uint32(p.ID)}
+			}
+			rules = append(rules, stack.RuleOp{Verb: "create", Kind: "PDR", ID: uint32(p.ID), Prec: 1, SrcIf: 1, UEIP: "10.60.0.1", FAR: p.FAR, QERs: p.QERs, URRs: urrs})
 			m.pdrs[p.ID] = &mpdr{far: p.FAR, qers: p.QERs}
 		}
 		o := r.Step(stack.Op{Kind: "est", Peer: sp.Node, Node: sp.Node, Sess: -1, CP: sp.CP, Rules: rules})
@@ -583,7 +597,14 @@ func run(c Case) (v *vcore.Violation, stt stats) {
 			if p == nil || p.removed {
 				continue
 			}
-			o := r.Step(stack.Op{Kind: "mod", Peer: m.spec.Node, Sess: m.ref, Rules: []stack.RuleOp{{Verb: "remove", Kind: "PDR", ID: uint32(ev.PDR)}}})
+			rm := []stack.RuleOp{{Verb: "remove", Kind: "PDR", ID: uint32(ev.PDR)}}
+			if ev.WithURR && m.spec.URRs && !p.urrGone {
+				// one message takes the PDR's URR away as well (the URR goes first: the PDR's last look at it finds nothing)
+				rm = []stack.RuleOp{{Verb: "remove", Kind: "URR", ID: 100 + uint32(ev.PDR)}, {Verb: "remove", Kind: "PDR", ID: uint32(ev.PDR)}}
+				p.urrGone = true
+				stt.rmWithURR = true
+			}
+			o := r.Step(stack.Op{Kind: "mod", Peer: m.spec.Node, Sess: m.ref, Rules: rm})
 			if x := dead(o, what); x != nil {
 				return x, stt
 			}
@@ -692,7 +713,7 @@ func run(c Case) (v *vcore.Violation, stt stats) {
 // ---------------------------------------------------------------- generator
 
 func genSess(t *rapid.T, cp uint64) SessSpec {
-	sp := SessSpec{Node: rapid.IntRange(0, 1).Draw(t, "node"), CP: cp}
+	sp := SessSpec{Node: rapid.IntRange(0, 1).Draw(t, "node"), CP: cp, URRs: rapid.Bool().Draw(t, "urrs")}
 	sp.QERs = []QERSpec{{ID: 1, QFI: rapid.SampledFrom([]uint8{0, 0, 5, 9, 37, 63}).Draw(t, "qfi1")}, {ID: 2, QFI: rapid.SampledFrom([]uint8{0, 1, 16, 62}).Draw(t, "qfi2")}}
 	for id := uint32(1); id <= 2; id++ {
 		sp.FARs = append(sp.FARs, FARSpec{ID: id, Action: rapid.SampledFrom([]uint16{BUFF, BUFF, BUFF | NOCP, FORW, DROP}).Draw(t, "action"),
@@ -756,8 +777,9 @@ func gen(t *rapid.T) Case {
 		c.Evs = append(c.Evs, Ev{Kind: "burst", Sess: 0, Target: "live", PDR: 1, N: 1, NOCP: true}, Ev{Kind: "reassoc", Sess: 0}, Ev{Kind: "est", Spec: &sp},
 			Ev{Kind: "burst", Sess: ns, Target: "live", PDR: 1, N: 2, NOCP: true}, Ev{Kind: "updfar", Sess: ns, FAR: 1, Action: FORW})
 	case "recreate":
-		// packets buffered for PDR 1, PDR 1 removed and created again, more packets, release: only the new ones may come out
-		c.Evs = append(c.Evs, small(), Ev{Kind: "rmpdr", Sess: 0, PDR: 1}, Ev{Kind: "mkpdr", Sess: 0, PDR: 1, FAR: 1}, small(), forw)
+		// packets buffered for PDR 1, PDR 1 removed (in half of the cases together with its URR) and created again, more packets,
+		// release: only the new ones may come out
+		c.Evs = append(c.Evs, small(), Ev{Kind: "rmpdr", Sess: 0, PDR: 1, WithURR: rapid.Bool().Draw(t, "rm_with_urr")}, Ev{Kind: "mkpdr", Sess: 0, PDR: 1, FAR: 1}, small(), forw)
 	case "twoforw":
 		c.Evs = append(c.Evs, small(), forw, Ev{Kind: "updfar", Sess: 0, FAR: 1, Action: BUFF}, small(), forw)
 	case "reuseorphan":
@@ -821,6 +843,7 @@ func gen(t *rapid.T) Case {
 			}
 		case "rmpdr":
 			ev.PDR = uint16(rapid.IntRange(1, 3).Draw(t, "pdr"))
+			ev.WithURR = rapid.IntRange(0, 2).Draw(t, "with_urr") == 0
 		case "mkpdr":
 			ev.PDR = uint16(rapid.IntRange(1, 3).Draw(t, "pdr"))
 			ev.FAR = uint32(rapid.IntRange(1, 2).Draw(t, "far"))
@@ -867,6 +890,9 @@ func account(c Case, s stats) {
 	}
 	if s.twoForw {
 		vcore.E.Class("two_forw_transitions")
+	}
+	if s.rmWithURR {
+		vcore.E.Class("pdr_and_its_urr_removed_by_one_message")
 	}
 	if s.lateSeid0 {
 		vcore.E.Class("seid0_answer_for_a_notification_of_an_ended_session")
